@@ -211,9 +211,31 @@ var Av1 = &cu.Spec{
 				d.Init() //nolint:errcheck
 				return av1Dec{d}
 			},
-			GenFrame: distinct(func(r *rand.Rand) cu.Frame { return av1GenTU(r, p.Max) }),
+			GenFrame: distinct(distinctOBUs(func(r *rand.Rand) cu.Frame { return av1GenTU(r, p.Max) })),
 		}, nil
 	},
+}
+
+// distinctOBUs makes every OBU of an instance different from all others: after a fault the tail
+// packets of a temporal unit can be decodable on their own (a packet with Z = 0 is self-contained)
+// and the generic C07 oracle, which recognises frames by content, must not mistake such a partial
+// unit for another (intact) unit.
+func distinctOBUs(gen func(r *rand.Rand) cu.Frame) func(r *rand.Rand) cu.Frame {
+	seen := map[string]bool{}
+	return func(r *rand.Rand) cu.Frame {
+		f := gen(r)
+		for _, obu := range f {
+			for tries := 0; seen[string(obu)] && tries < 300; tries++ {
+				keep := obu[0]
+				copy(obu, randBytes(r, len(obu)))
+				if len(obu) > 1 {
+					obu[0] = keep // preserve the OBU type drawn by the generator
+				}
+			}
+			seen[string(obu)] = true
+		}
+		return f
+	}
 }
 
 func fill(n int, b byte) []byte {
